@@ -330,6 +330,9 @@ def answer (line : String) : String :=
     | ["assign", start, topics, subs, resp] => opAssign start topics subs resp impl
     | ["ctrace", mode, evs] => opTrace mode evs
     | ["gtrace", _tp, evs] => opGTrace evs
+    | ["d8reader"] =>
+      -- observation: after the forced late-unsubscribe schedule the next generation's fetchers are still running
+      s!"model=alive holds={if impl == "alive" then 1 else 0}"
     | _ => "bad-op"
   | _ => "bad-op"
 
